@@ -29,11 +29,17 @@ func allFields(r *Root, md protoreflect.MessageDescriptor) []protoreflect.FieldD
 }
 
 func runOps(c *C) {
-	c.R.Rule = "operation histories of length <= 40 from the empty message over about 40 corpus root types x {generated (open/hybrid/opaque), dynamicpb}: Set (scalars incl. zero values, bytes, whole submessages, oneof members, extensions), Clear, Mutable, list Append/Set/Truncate, map Set/Clear, SetUnknown, Reset, Unmarshal (non-merge, valid and corrupted input). After every step: reflection snapshot vs the Lean model's state; Has == populated-in-Range; Get of unset == default/empty read-only; at most one populated member per oneof and WhichOneof names it. Non-trivial = history reaches a message with >= 2 populated fields; distinct by final snapshot."
+	c.R.Rule = "operation histories of length <= 40 from the empty message over about 40 corpus root types x {generated (open/hybrid/opaque), dynamicpb}: Set (scalars incl. zero values, bytes, whole submessages, oneof members, extensions), Clear, Mutable, list Append/Set/Truncate, map Set/Clear, SetUnknown, Reset, Unmarshal (non-merge, valid and corrupted input). After every step: reflection snapshot vs the Lean model's state; Has == populated-in-Range; Get of unset == default/empty read-only; at most one populated member per oneof and WhichOneof names it. C12 additionally: for every oneof of every root type and every ordered pair of distinct members, binary concatenation (last wins, both lazy modes), text concatenation and merged JSON objects (must be rejected), exhaustive over the pairs with random values. Non-trivial = history reaches a message with >= 2 populated fields; distinct by final snapshot."
 	rs := roots(c)
 	per := c.N(12, 500)
 	for _, r := range rs {
 		r.Flat.Send(c)
+		if c.Prop == "C12" {
+			for k := 0; k < c.N(2, 40) && !c.Failed(); k++ {
+				oneofDecodeCases(c, r, false)
+				oneofDecodeCases(c, r, true)
+			}
+		}
 		for i := 0; i < per && !c.Failed(); i++ {
 			for _, dyn := range []bool{false, true} {
 				history(c, r, dyn)
@@ -92,6 +98,16 @@ func history(c *C, r *Root, dyn bool) {
 			}
 			m.Set(fd, v)
 			op = fmt.Sprintf("set %d %s", fd.Number(), r.Flat.valTok(fd, v))
+			// presence discipline, stated on the implementation alone: a field that is required, a oneof member,
+			// proto2-optional / proto3-optional / editions EXPLICIT reports Has after Set of ANY value; an
+			// implicit-presence field exactly for non-zero values.
+			explicit := fd.Cardinality() == protoreflect.Required || fd.ContainingOneof() != nil || fd.HasPresence()
+			in["ops"] = append(append([]string{}, trace...), op)
+			if explicit {
+				c.Check(m.Has(fd), fmt.Sprintf("Has(%s) is false right after Set(%v) on an explicit-presence field (required=%v oneof=%v HasPresence=%v)", fd.Name(), v, fd.Cardinality() == protoreflect.Required, fd.ContainingOneof() != nil, fd.HasPresence()), in, "")
+			} else {
+				c.Check(m.Has(fd) == !isZeroValue(fd, v), fmt.Sprintf("Has(%s)=%v after Set(%v) on an implicit-presence field", fd.Name(), m.Has(fd), v), in, "")
+			}
 		case 3: // set whole message
 			fd := pick(func(fd protoreflect.FieldDescriptor) bool { return singular(fd) && fd.Message() != nil })
 			if fd == nil {
@@ -113,8 +129,15 @@ func history(c *C, r *Root, dyn bool) {
 			if fd == nil {
 				continue
 			}
-			m.Mutable(fd)
+			was := m.Has(fd)
+			mm := m.Mutable(fd).Message()
 			op = fmt.Sprintf("mutable %d", fd.Number())
+			// the contract of Mutable, stated on the implementation alone
+			in["ops"] = append(append([]string{}, trace...), op)
+			c.Check(m.Has(fd), fmt.Sprintf("Has(%s) is false right after Mutable", fd.Name()), in, "")
+			if !was {
+				c.Check(isEmptyRO(mm), fmt.Sprintf("Mutable(%s) on an unpopulated field returned a non-empty message", fd.Name()), in, "")
+			}
 		case 7, 8:
 			fd := pick(func(fd protoreflect.FieldDescriptor) bool { return fd.IsList() })
 			if fd == nil {
